@@ -848,17 +848,24 @@ set_option exponentiation.threshold 2000 in
 theorem fnumeral_zero : FNumeral (t "0") :=
   ⟨⟨⟨by decide, by decide, by decide⟩, by decide, by decide⟩, by decide, by decide⟩
 
-theorem cz_cases (n : Txt) : cz n = n ∨ cz n = t "0" := by
+set_option exponentiation.threshold 2000 in
+theorem fnumeral_negzero : FNumeral (t "-0") :=
+  ⟨⟨⟨by decide, by decide, by decide⟩, by decide, by decide⟩, by decide, by decide⟩
+
+theorem cz_cases (n : Txt) : cz n = n ∨ cz n = t "0" ∨ cz n = t "-0" := by
   unfold cz; split
   · exact Or.inl rfl
   · split
-    · exact Or.inr rfl
+    · rcases Clean.zeroForm_cases n with e | e
+      · exact Or.inr (Or.inl e)
+      · exact Or.inr (Or.inr e)
     · exact Or.inl rfl
 
 theorem fnumeral_cz {n : Txt} (h : FNumeral n) : FNumeral (cz n) := by
-  rcases cz_cases n with e | e <;> rw [e]
+  rcases cz_cases n with e | e | e <;> rw [e]
   · exact h
   · exact fnumeral_zero
+  · exact fnumeral_negzero
 
 theorem cleanPT_shape (nm : Txt) (p : PT) (h : PTShape nm p) (hf : ∀ q ∈ p.pts, FNumeral q.1 ∧ FNumeral q.2) :
     PTShape nm (cleanPT p) := by
